@@ -230,13 +230,16 @@ async def sse_emitter(events, make_event, rec, ch):
         rec.finalized += 1
 
 
-WSGI_KINDS = ('list', 'gen', 'iter', 'iter_nc', 'file', 'file_nc', 'file_fw', 'file_nc_fw')
+# *_fw: the server offers wsgi.file_wrapper (it is meant for file-like streams only: an iterable is iterated as usual)
+WSGI_KINDS = ('list', 'gen', 'iter', 'iter_nc', 'file', 'file_nc', 'file_fw', 'file_nc_fw', 'gen_fw', 'iter_fw', 'list_fw')
 ASGI_KINDS = ('agen', 'aiter', 'aiter_nc', 'afile', 'afile_nc', 'sse')
 FILE_KINDS = ('file', 'file_nc', 'file_fw', 'file_nc_fw', 'afile', 'afile_nc')
 
 
 def make_stream(kind, chunks, rec, ch):
     chunks = list(chunks)
+    if kind in ('gen_fw', 'iter_fw', 'list_fw'):
+        kind = kind[:-3]
     if kind == 'list':
         return chunks
     if kind == 'gen':
